@@ -9,7 +9,7 @@ import numpy
 from hypothesis import strategies as st
 
 from pbt import exact, files, gridded as G, lattice, quad
-from pbt.core import call
+from pbt.core import call, workdir
 
 PROP = "C11"
 TECHNIQUE = "Hypothesis-generated forecast files (reference encoder) -> load -> lookups at constructed corner/centre/near-far-corner points compared with the file rows (round trip); scale / scale_to_test_date histories checked against 'original x last factor'"
@@ -151,10 +151,29 @@ def check_cart(ctx, case):
             m1 = edges[m + 1] if m + 1 < nm else 10.0
             rows.append((lon0, lon1, lat0, lat1, edges[m], m1, float(rates[k, m]), flags[k]))
     swap = case["swap"]
-    with tempfile.TemporaryDirectory() as d:
+    with workdir() as d:
         p = os.path.join(d, "forecast.dat")
         files.write_gridded_ascii(p, rows, swap_latlon=swap)
         o = call(csep.load_gridded_forecast, p, start_date=T0, end_date=T1, swap_latlon=swap)
+        if o.ok and case.get("second_load"):
+            # another file on the same cells with a different magnitude grid, loaded afterwards in the same process: the first
+            # forecast keeps its own magnitude edges and rates (nothing may be shared between the two)
+            e2 = exact.decimal_grid("6.05", "0.3", nm + 1)
+            rows2 = []
+            for k, (i, j) in enumerate(L.cells):
+                lon0, lat0 = float(org[k][0]), float(org[k][1])
+                lon1, lat1 = L._coord(L.lon0, i + 1), L._coord(L.lat0, j + 1)
+                for m in range(nm + 1):
+                    rows2.append((lon0, lon1, lat0, lat1, e2[m], e2[m + 1] if m + 1 < nm + 1 else 12.0, 0.5 + k + m, flags[k]))
+            p2 = os.path.join(d, "forecast_other_magnitudes.dat")
+            files.write_gridded_ascii(p2, rows2, swap_latlon=swap)
+            o2 = call(csep.load_gridded_forecast, p2, start_date=T0, end_date=T1, swap_latlon=swap)
+            if not o2.ok:
+                ctx.unexpected(o2, "load_gridded_forecast:second_file_same_cells")
+            else:
+                ctx.count("second_file_same_cells_loaded")
+                if [float(x) for x in o2.value.magnitudes] != [float(x) for x in e2]:
+                    ctx.violation("second_file_magnitudes_differ_from_file", {"got": [float(x) for x in o2.value.magnitudes][:5], "want": e2[:5]})
     if not o.ok:
         ctx.unexpected(o, "load_gridded_forecast")
         return
@@ -288,7 +307,7 @@ def check_quad(ctx, case):
     hm = float(case["mags"]["step"])
     rates = numpy.array(case["rates"], dtype=float).reshape(len(keys), nm)
     b = [quad.bounds(k) for k in keys]
-    with tempfile.TemporaryDirectory() as d:
+    with workdir() as d:
         if case["k"] == "quad_ascii":
             p = os.path.join(d, "forecast.dat")
             rows = []
@@ -366,7 +385,8 @@ def cases(draw):
         rates = draw(G.rate_arrays(nc * mc["n"], lo=-8, hi=2, distinct=True))
         # rates must be positive and pairwise distinct so that a wrong row is visible
         rates = [r if r > 0 else 1.5e-9 * (i + 1) for i, r in enumerate(rates)]
-        return {"k": "cart", "region": rc, "mags": mc, "rates": rates, "swap": draw(st.booleans()), "history": draw(histories())}
+        return {"k": "cart", "region": rc, "mags": mc, "rates": rates, "swap": draw(st.booleans()), "history": draw(histories()),
+                **({"second_load": True} if draw(st.integers(0, 3)) == 0 else {})}
     keys = quad.all_keys(draw(st.integers(1, 2)))
     out = []
     for k in keys:
